@@ -48,7 +48,7 @@ def widen(rng, msg, cfg):
         elif pt == 'decimal' and r < 0.3:
             out[k] = str(v)
             tags.append('decimal_as_string')
-        elif pt is None and c['field_type'] == 'FIXED' and isinstance(v, str) and r < 0.3 and len(v) > 1 \
+        elif pt in (None, 'string') and c['field_type'] == 'FIXED' and isinstance(v, str) and r < 0.3 and len(v) > 1 \
                 and not c.get('field_processor'):
             cut = rng.randint(1, len(v) - 1)
             if v[:cut].strip() or True:
@@ -85,7 +85,7 @@ def cases(ctx):
         for b in gen.data_bits(cfg):
             c = cfg[str(b)]
             w = ref.PREFIX[c['field_type']]
-            if not w or c.get('field_python_type'):
+            if not w or not gen.is_text(c):
                 continue
             for n in ((100, 101, 150, 999) if w == 2 else (1000, 1001, 5000)):
                 for enc in ('latin_1', 'cp500'):
